@@ -351,6 +351,25 @@ def run(world, simcfg, seed):
     with SW.active(w):
         try:
             G = build_graph(world)
+            if simcfg.get("inplace_prelude") and not _node_mode(world):
+                # the caller used this very graph object before, with every flow value halved, for a model of the same
+                # class (solved), and then updated the flow values in place
+                factor = simcfg["inplace_prelude"]
+                for u_, v_, d_ in G.edges(data=True):
+                    if "flow" in d_:
+                        d_["flow"] = d_["flow"] * factor
+                try:
+                    m0 = models.build(world, shared={"G": G})
+                    m0.solve()
+                except SW.Discard:
+                    raise
+                except Exception:
+                    pass
+                for u_, v_, f_ in world["graph"]["edges"]:
+                    if f_ is not None:
+                        G[u_][v_]["flow"] = f_
+                w.probes["inplace_prelude"] += 1
+                w.faults = {int(k_) + w.inv: dict(v_, at=int(k_) + w.inv) for k_, v_ in w.faults.items()}
             model = models.build(world, shared={"G": G})
         except SW.Discard:
             raise
